@@ -8,6 +8,9 @@ import NetqasmVerif.Gen.InstrTable
 namespace NQ.TextObl
 open NQ NQ.Text
 
+/-- the symbols of `symbols.py` and the bank letters cannot be confused with each other -/
+theorem syms_ok : symsOk Gen.syms = true := by decide +kernel
+
 /-- vanilla: every row's mnemonic maps back to its class through `GenericInstr` and the
 flavour's name map, and every immediate position is exempt from constant replacement -/
 theorem vanilla_rows_ok : Gen.vanillaRows.all
